@@ -68,7 +68,8 @@ NestedStringTokenizer::NestedStringTokenizer(const std::string& s, const std::st
     string::size_type index = 0;
     while (index != s.npos)
     {
-      string::size_type newIndex = s.find(delimiters, index);
+      // An empty delimiter separates nothing (it would be found at every position, forever).
+      string::size_type newIndex = delimiters.empty() ? s.npos : s.find(delimiters, index);
       bool endBlockFound = false;
       while (!endBlockFound)
       {
